@@ -502,19 +502,13 @@ impl Allocator for Arena {
     let final_offset = match pos {
       ArenaPosition::Start(offset) => offset.max(data_offset).min(cap),
       ArenaPosition::Current(offset) => {
-        let offset = allocated as i64 + offset;
-        #[allow(clippy::comparison_chain)]
-        if offset > 0 {
-          if offset >= (cap as i64) {
-            cap
-          } else {
-            let offset = offset as u32;
-            offset.max(data_offset).min(cap)
-          }
-        } else if offset < 0 {
+        let offset = (allocated as i64).saturating_add(offset);
+        if offset >= (cap as i64) {
+          cap
+        } else if offset <= (data_offset as i64) {
           data_offset
         } else {
-          return;
+          offset as u32
         }
       }
       ArenaPosition::End(offset) => match cap.checked_sub(offset) {
